@@ -209,6 +209,7 @@ Proof.
     destruct (mem_n c (st_term st) || _); injection E as <- <-; [rewrite L; apply msgs_eqb_refl|]. cbn [st_stored].
     destruct (alookup N.eqb c (st_sess st)) as [[x|i]|]; try (rewrite L; apply msgs_eqb_refl).
     destruct (alookup bytes_eqb i (st_stored st)) as [s0|] eqn:L0; [|rewrite L; apply msgs_eqb_refl].
+    destruct (option_eqb N.eqb (s_act s0) (Some c)); [|rewrite L; apply msgs_eqb_refl].
     rewrite (alookup_aset bytes_eqb bytes_eqb_eq). destruct (bytes_eqb id i) eqn:K; [|rewrite L; apply msgs_eqb_refl].
     apply bytes_eqb_eq in K; subst i. rewrite L in L0; injection L0 as <-. apply msgs_eqb_refl.
   - injection E as <- <-. cbn [st_stored]. rewrite L; apply msgs_eqb_refl.
